@@ -51,6 +51,10 @@ def _mk(ex, node, name, env, ghost):
         if t == "opaque":
             o = Opaque(name=name)
             o.ghost.update(ghost)
+            if o.ghost.get("maybe_none") is None:
+                # an opaque parameter is a real object: `x is None` is statically False for it, so its term differs from None's
+                from .objmodels import NONE_U
+                ex.assume(o.term != NONE_U)
             return o
         if t in env:
             return env[t]  # a parameter that IS one of the size symbols (or an earlier parameter)
@@ -94,6 +98,10 @@ def _mk(ex, node, name, env, ghost):
         if f == "opaque":
             o = Opaque(name=name, pytype=ast.literal_eval(node.args[0]) if node.args else None)
             o.ghost.update(ghost)
+            if o.ghost.get("maybe_none") is None:
+                # an opaque parameter is a real object: `x is None` is statically False for it, so its term differs from None's
+                from .objmodels import NONE_U
+                ex.assume(o.term != NONE_U)
             return o
         if f == "obj":
             cls = ast.literal_eval(node.args[0])
